@@ -563,7 +563,8 @@ class _SetOfTypes(Type, frozen=False, eq=False):
     return NotImplemented
 
   def __hash__(self):
-    return hash(self.type_list)
+    # Must agree with __eq__, which ignores the ordering of the type_list.
+    return hash(frozenset(self.type_list))
 
 
 class UnionType(_SetOfTypes):
